@@ -48,12 +48,17 @@ fn task_gen(tier: Tier, exact_only: bool) -> TaskGen {
 
 fn case_strategy(tier: Tier, analyses: Vec<Analysis>, exact_only: bool, nsched: usize) -> BoxedStrategy<Case> {
     let g = task_gen(tier, exact_only);
-    (taskset_strategy_u(g, 300, 1050), proptest::sample::select(analyses))
+    // a third of the task sets is heavily loaded, and a quarter of the cases analyses the task that
+    // suffers most interference (lowest priority / longest deadline): long busy windows with several
+    // jobs of the analysed task, i.e. maxima at offsets A > 0
+    let sets = prop_oneof![2 => taskset_strategy_u(g, 300, 1050), 1 => taskset_strategy_u(g, 850, 1020)];
+    (sets, proptest::sample::select(analyses))
         .prop_flat_map(move |(tasks, analysis)| {
             let n = tasks.len();
+            let last = (0..n).max_by_key(|i| if analysis.is_edf() { (tasks[*i].deadline, *i) } else { (tasks[*i].prio as u64, *i) }).unwrap_or(0);
             (
                 Just(tasks),
-                0..n,
+                prop_oneof![3 => (0..n).boxed(), 1 => Just(last).boxed()],
                 Just(analysis),
                 prop_oneof![4 => Just(Limit::Large), 1 => (1u64..200).prop_map(Limit::Absolute)],
                 prop_oneof![Just(Wrap::Plain), Just(Wrap::Boxed), Just(Wrap::Refs)],
@@ -358,7 +363,7 @@ pub fn def_c01() -> PropertyDef {
         id: "C01",
         rule: format!("{}{}", "generated: task sets of 1-4 (thorough: 5) tasks (Periodic, Sporadic with J up to 4T, extrapolating bursty delta-min curves incl. plateaus, jittered / propagated / summed models, rarely Never; T <= 30/40, WCET <= 8, utilisation steered to 0.3-1.05, equal priorities, segment vectors, floating region lengths), the analysed task, one of the four FP analyses, limit (3000 or small absolute), RBF wrapping, and per case the canonical adversary (one lower-priority blocker entering its longest non-preemptive segment at t0-1, everything else densest from t0, all WCET, ties against the analysed task) plus 5-7 generated schedules (release slack / jitter decisions, phases, execution-time cuts, tie-break vectors, non-preemptive-region decisions, blocker on/off). Oracle: independent slot-by-slot scheduler simulation; every job of the analysed task (completed, or unfinished at the horizon with its age) must respond within Ok(R). Non-trivial: Ok result, >= 2 tasks and some job of the analysed task waited (response > own execution time); labels report how often the bound was attained exactly. Distinct by case JSON.", MF_RULE),
         assumptions: SIM_ASSUMPTIONS.iter().map(|s| s.to_string()).collect(),
-        subchecks: vec![subcheck("simulate", (3000, 60_000), fp_strategy, check_safe), subcheck("multiframe-costs", (800, 30_000), mf_fp_strategy, check_mf)],
+        subchecks: vec![subcheck("simulate", (4500, 60_000), fp_strategy, check_safe), subcheck("multiframe-costs", (800, 30_000), mf_fp_strategy, check_mf)],
         extra: None,
     }
 }
@@ -368,7 +373,7 @@ pub fn def_c02() -> PropertyDef {
         id: "C02",
         rule: format!("{}{}", "as C01 with the four EDF analyses: relative deadlines 1..3T (also larger than the period), EDF simulator with generated tie-break vectors (incl. 'analysed job always last'), per-task phases so that other tasks' deadlines line up with offsets A > 0 of the analysed task, a later-deadline blocker entering its longest non-preemptive segment one tick before t0; 6-8 generated schedules plus the canonical adversary per case. Oracle and non-triviality as C01.", MF_RULE),
         assumptions: SIM_ASSUMPTIONS.iter().map(|s| s.to_string()).collect(),
-        subchecks: vec![subcheck("simulate", (2500, 60_000), edf_strategy, check_safe), subcheck("multiframe-costs", (600, 30_000), mf_edf_strategy, check_mf)],
+        subchecks: vec![subcheck("simulate", (3500, 60_000), edf_strategy, check_safe), subcheck("multiframe-costs", (600, 30_000), mf_edf_strategy, check_mf)],
         extra: None,
     }
 }
